@@ -416,6 +416,25 @@ def _extract_ir_ctx(converter: Any) -> Any | None:
 
 
 @contextmanager
+def isolated_trace_cache() -> Iterator[None]:
+    """Keep conversion-time traces out of JAX's shared jit tracing caches.
+
+    While plugin bindings are active, tracing a ``jax.jit``-wrapped callable
+    caches a jaxpr made of converter-only primitives under the same key an
+    eager call would use, so a later eager call of that callable fails to
+    lower. Entering an ``xla_metadata`` scope changes the trace-context part of
+    the cache key, which keeps conversion traces and user traces apart.
+    """
+    try:
+        from jax.experimental.xla_metadata import set_xla_metadata
+    except ImportError:  # pragma: no cover - older JAX without xla_metadata
+        yield
+        return
+    with set_xla_metadata(jax2onnx_trace="1"):
+        yield
+
+
+@contextmanager
 def _activate_full_plugin_worlds_for_body() -> Iterator[None]:
     """
     For nested function-body tracing: activate BOTH
@@ -444,7 +463,8 @@ def _activate_full_plugin_worlds_for_body() -> Iterator[None]:
                     "Skipping leaf binding for %r", plugin.__class__, exc_info=True
                 )
         backfill_missing_transpose_rules(leaf_prims)
-        yield
+        with isolated_trace_cache():
+            yield
 
 
 def _qualname_of_target(target: Any) -> str:
